@@ -448,6 +448,77 @@ class C05(spec.Spec):
         out.nontrivial += 1
         out.conform += 1
 
+    # -- derivation subtype factories and shared argument lists ---------------------------
+    def subtype_case(self, item, out):
+        """revision / quotation / primary_source x form of other_attributes x its content: the record holds the
+        subtype, every value of a repeated name and the caller's own prov:type values"""
+        fac, form, content = item
+        hh = ("c05-subtype", fac, form, content)
+        out.evaluations += 1
+        doc = ProvDocument()
+        doc.add_namespace("ex", A)
+        pairs = {"repeated-name": [(EX["k"], 1), (EX["k"], 2)],
+                 "own-type-qname-key": [(PROV["type"], EX["T"]), (EX["k"], 1)],
+                 "own-type-string-key": [("prov:type", EX["T"]), ("ex:k", 1), ("ex:k", "one")],
+                 "falsy": [(EX["k"], 0), (EX["k2"], ""), (EX["k3"], False)]}[content]
+        if form == "dict" and len({n for n, _ in pairs}) < len(pairs):
+            return
+        other = dict(pairs) if form == "dict" else (list(pairs) if form == "list" else tuple(pairs))
+        try:
+            rec = getattr(doc, fac)("ex:e2", "ex:e1", identifier="ex:r", other_attributes=other)
+        except Exception as e:
+            out.violation("creation-raises", "%s:%s" % (fac, type(e).__name__), {"error": repr(e)}, hh)
+            return
+        out.transitions += 1
+        sub = {"revision": "Revision", "quotation": "Quotation", "primary_source": "PrimarySource"}[fac]
+        want = {(PROV_URI + "generatedEntity", ("qn", A + "e2")), (PROV_URI + "usedEntity", ("qn", A + "e1")),
+                (PROV_URI + "type", ("qn", PROV_URI + sub))}
+        for n, v in pairs:
+            nq = doc.valid_qualified_name(n)
+            want.add((nq.uri, observe.vobs(v)))
+        got = set(observe.robs(rec)[2])
+        if got != want:
+            out.violation("creation-differs-from-model", "%s:%s:%s" % (fac, form, content),
+                          {"missing": repr(sorted(want - got, key=repr)), "extra": repr(sorted(got - want, key=repr))}, hh)
+            return
+        out.outcomes["subtype-factory-ok"] += 1
+        out.nontrivial += 1
+        out.conform += 1
+
+    def shared_list_case(self, item, out):
+        """the caller's attribute list is used for two new_record calls: neither record may see what was only
+        given to the other, and the list itself must come back unchanged"""
+        first_kind, with_other = item
+        hh = ("c05-shared-list", first_kind, with_other)
+        out.evaluations += 1
+        doc = ProvDocument()
+        doc.add_namespace("ex", A)
+        shared = [(PROV["entity"], "ex:e1"), (PROV["activity"], "ex:a1")]
+        before = list(shared)
+        other1 = [(PROV["time"], T1), (EX["tag"], "first")] if with_other else None
+        try:
+            r1 = doc.new_record(PROV[first_kind], "ex:r1", shared, other1)
+            r2 = doc.new_record(PROV["Generation"], "ex:r2", shared, [(EX["tag"], "second")])
+        except ProvException as e:
+            out.violation("spurious-refusal", "shared-argument-list", {"error": str(e)}, hh)
+            return
+        except Exception as e:
+            out.violation("unexpected-exception", "shared-argument-list:%s" % type(e).__name__, {"error": repr(e)}, hh)
+            return
+        out.transitions += 2
+        if shared != before:
+            out.violation("argument-list-modified", first_kind, {"list": repr(shared)}, hh)
+            return
+        got2 = set(observe.robs(r2)[2])
+        want2 = {(PROV_URI + "entity", ("qn", A + "e1")), (PROV_URI + "activity", ("qn", A + "a1")), (A + "tag", ("str", "second"))}
+        if got2 != want2:
+            out.violation("record-holds-values-given-to-another-record", first_kind,
+                          {"extra": repr(sorted(got2 - want2, key=repr)), "missing": repr(sorted(want2 - got2, key=repr))}, hh)
+            return
+        out.outcomes["shared-list-ok"] += 1
+        out.nontrivial += 1
+        out.conform += 1
+
     # -- literal vs native ------------------------------------------------------------
     def literal_case(self, item, out):
         (dt_local, lexical, native_src), attr, path, dtprefix = item
@@ -571,6 +642,15 @@ def main(tier, seed):
     out3 = explore.pmap(__name__, tier, {}, "creation_conflict_case", conf_items, chunk=20)
     out3.evaluations -= len(conf_items)
     out.merge(out3)
+    sub_items = [(f, form, c) for f in ("revision", "quotation", "primary_source") for form in ("dict", "list", "tuple")
+                 for c in ("repeated-name", "own-type-qname-key", "own-type-string-key", "falsy")]
+    out4 = explore.pmap(__name__, tier, {}, "subtype_case", sub_items, chunk=6)
+    out4.evaluations -= len(sub_items)
+    out.merge(out4)
+    sh_items = [(k, w) for k in ("Generation", "Invalidation", "Usage") for w in (True, False)]
+    out5 = explore.pmap(__name__, tier, {}, "shared_list_case", sh_items, chunk=2)
+    out5.evaluations -= len(sh_items)
+    out.merge(out5)
     lit_items = [(l, a, p, pre) for l in LITERALS for a in ATTRS for p in LPATHS for pre in ("xsd", "xs")]
     out2 = explore.pmap(__name__, tier, {}, "literal_case", lit_items, chunk=40)
     out2.evaluations -= len(lit_items)
